@@ -35,13 +35,11 @@ def errHeaders (cfg : Cfg) : Headers := [("content-length".b, "0".b), ("connecti
 /-- the current stream, when it is a WSStream -/
 def curWs (st : St) : Option Ws.S := match st.stream with | some (.ws s) => some s | _ => none
 
-/-- h11 hands header names over lower-cased and without surrounding whitespace, `raw_items()` differs from the normalised list in
-    the case of the names only, and h11's own reading of the `Upgrade` header (`get_comma_header`) registered the proposal
-    whenever hypercorn's reading of it finds `h2c` / `websocket` -/
+/-- h11 hands header names over lower-cased and without surrounding whitespace, and `raw_items()` differs from the normalised list
+    in the case of the names only -/
 def hdrWf (r : ReqEv) : Bool :=
   r.headers.all (fun h => Bytes.lower h.1 == h.1 && Bytes.stripL1 h.1 == h.1) &&
-  (r.rawHeaders.map (fun h => (Bytes.lower h.1, h.2)) == r.headers) &&
-  (!(reqIsH2c r || isWebsocketRequest r) || (reqInfo r).hasUpgrade)
+  (r.rawHeaders.map (fun h => (Bytes.lower h.1, h.2)) == r.headers)
 
 /-- meaning (a), library part: `next_event()` / `H11WSConnection.next_event()` / wsproto can produce this result in the
     state reached after the loop-top 100 Continue -/
@@ -59,10 +57,8 @@ def libPossibleAt (st : St) (g : Ws.Frag) : LibEv → Bool
 
 def libPossible (cfg : Cfg) (st : St) (g : Ws.Frag) (e : LibEv) : Bool := libPossibleAt (loopTop cfg st).1 g e
 
-/-- meaning (b): the exception (if any) that leaves `_handle_events` while it handles `e` -/
-def escapeEv (cfg : Cfg) (st0 : St) (e : LibEv) : Option Escape :=
-  if st0.lib.waiting100 && !st0.wsMode && (libSend st0 (.info 100 cfg.serverHeaders)).2.2 then some .continue100 else
-  let st := (loopTop cfg st0).1
+/-- meaning (b), after the loop top: the exception (if any) that leaves `_handle_events` while it handles `e` in state `st` -/
+def escapeBody (cfg : Cfg) (st : St) (e : LibEv) : Option Escape :=
   match e with
   | .protoError hint =>
     let st := { st with lib := H11M.recvError st.lib }
@@ -104,6 +100,12 @@ def escapeEv (cfg : Cfg) (st0 : St) (e : LibEv) : Option Escape :=
         if (runWsEvs cfg (st.setObj i (.ws (Ws.handle s (.data evs)).1)) (Ws.handle s (.data evs)).2.2.1).2.2 then some .wsAnswer else none
     | _, _ => none
   | _ => none
+
+/-- meaning (b): the exception (if any) that leaves `_handle_events` in one iteration of its loop: the 100 Continue at the top,
+    then the handling of `e` -/
+def escapeEv (cfg : Cfg) (st0 : St) (e : LibEv) : Option Escape :=
+  if st0.lib.waiting100 && !st0.wsMode && (libSend st0 (.info 100 cfg.serverHeaders)).2.2 then some .continue100
+  else escapeBody cfg (loopTop cfg st0).1 e
 
 /-! ## the protocol's own calls into h11 -/
 
@@ -166,10 +168,12 @@ theorem libSend_facts (st : St) (e : LibSend) :
 /-- a response head sent from SEND_RESPONSE is accepted; unless it is the 2xx answer to a CONNECT the writer is then in SEND_BODY -/
 theorem libSend_response_ok (st : St) (status : Nat) (hs : Headers) (h : st.lib.server = .sendResponse) :
     (libSend st (.response status hs)).2.2 = false ∧
-    (¬ (st.lib.pendConnect = true ∧ 200 ≤ status ∧ status < 300) → (libSend st (.response status hs)).1.lib.server = .sendBody) := by
+    (¬ (st.lib.pendConnect = true ∧ 200 ≤ status ∧ status < 300) → (libSend st (.response status hs)).1.lib.server = .sendBody) ∧
+    (libSend st (.response status hs)).1.lib.waiting100 = false := by
   obtain ⟨s', h1, h2⟩ := H11M.sendResponse_ok st.lib (respInfo status hs) h
+  have a := H11M.sendResponse_after _ _ _ h1
   simp only [libSend, h1]
-  exact ⟨trivial, fun hc => h2 (by simpa [respInfo] using hc)⟩
+  exact ⟨trivial, fun hc => h2 (by simpa [respInfo] using hc), a.2.1⟩
 
 theorem libSend_info_ok (st : St) (status : Nat) (hs : Headers) (h : st.lib.server = .sendResponse)
     (hn : status = 101 → st.lib.pendUpgrade = true) :
@@ -225,6 +229,7 @@ theorem none_classified (cfg : Cfg) (st : St) (g : Ws.Frag) (e : LibEv)
       rw [if_neg htop]
       generalize (loopTop cfg st).1 = st1 at h hws' ⊢
       generalize (loopTop cfg st).2 = o0 at h
+      unfold escapeBody
       cases e with
       | protoError hint =>
         exfalso
